@@ -317,7 +317,9 @@ fn judge_audio(cfg: &Cfg, st: &State, pts: f64, data: &[u8], j: &mut Judgement) 
             match adts(data) {
                 Adts::Valid { .. } => {}
                 Adts::EmptyPayload { .. } => {
-                    j.zone.get_or_insert("Z4 ADTS frame with empty payload");
+                    // a frame without payload cannot be stored as a sample (documented by the
+                    // InvalidFrameLength error text): it must be rejected
+                    j.v.insert(C::AdtsFraming);
                 }
                 Adts::Invalid(_) => {
                     j.v.insert(C::AdtsFraming);
